@@ -12,7 +12,7 @@ from rules.mir import callee_key
 from props import c02, c08
 
 PROP = 'C16'
-TEMPLATE_FLOOR = 55
+TEMPLATE_FLOOR = 40       # non-vacuity, not an exact count: merging or splitting templates is a legitimate refactor (55 today)
 FIXTURE_EXPECT = {'bad_std': 'L1-path', 'bad_bare': 'L2-bare', 'bad_macro': 'L3-macro'}
 
 def callee_seq(inst):
